@@ -634,7 +634,7 @@ def correspondence(ctx):
     rng = ctx.rng
     cases = [c["case"] for c in load_corpus() if c.get("kind") == "history"]
     n_corpus = len(cases)
-    cases += [gen_case(rng) for _ in range(ctx.n(300, 5000))]
+    cases += [gen_case(rng) for _ in range(ctx.n(300, 4000))]
     n_random = len(cases)
     cases += exhaustive_cases(ctx.n(2, 3))
     runs = []
